@@ -3,6 +3,7 @@ package node
 import (
 	"encoding/json"
 	"fmt"
+	"github.com/freeconf/yang/fc"
 	"reflect"
 	"strconv"
 	"strings"
@@ -56,10 +57,11 @@ func NewValues(m []meta.Leafable, objs ...interface{}) ([]val.Value, error) {
 }
 
 // Incoming value should be of appropriate type according to given data type format
-func NewValue(typ *meta.Type, v interface{}) (val.Value, error) {
+func NewValue(typ *meta.Type, v interface{}) (result val.Value, err error) {
 	defer func() {
 		if r := recover(); r != nil {
-			panic(fmt.Sprintf("%s : %s", typ.Ident(), r))
+			// a value no conversion is prepared for is the caller's error
+			result, err = nil, fmt.Errorf("%w. cannot make a value of type %s from '%v' : %v", fc.BadRequestError, typ.Ident(), v, r)
 		}
 	}()
 	if v == nil {
@@ -174,6 +176,9 @@ func toEnumList(src val.EnumList, v interface{}) (val.EnumList, error) {
 }
 
 func toEnum(src val.EnumList, v interface{}) (val.Enum, error) {
+	if v == nil {
+		return val.Enum{}, fmt.Errorf("could not coerce nothing into enum %v", src.String())
+	}
 	if id, isNum := val.Conv(val.FmtInt32, v); isNum == nil {
 		if e, found := src.ById(id.Value().(int)); found {
 			return e, nil
